@@ -250,8 +250,9 @@ theorem step_patch_neutral {s : St} {i : Nat} (hf : s.failed = false)
         | iterTerm t => simp [consume, hf]
         | term ok =>
           cases ok with
-          | true => simp [consume, hf]
-          | false => simp at hh
+          | completed => simp [consume, hf]
+          | skipped => simp [consume, hf]
+          | failed => simp at hh
     · rfl
 
 /-- no failed termination is ever to be delivered, and none was seen -/
